@@ -16,7 +16,7 @@ type Gates struct {
 	mu      sync.Mutex
 	cond    *sync.Cond
 	held    map[string]bool
-	waiting map[string][]chan struct{}
+	waiting []*waiter
 	hits    map[string]int
 	stuck   []string
 	rec     *Rec
@@ -27,11 +27,25 @@ type Gates struct {
 	maxPark time.Duration
 }
 
+type waiter struct {
+	keys [4]string
+	ch   chan struct{}
+	a, b int64
+}
+
+func (w *waiter) match(key string) bool {
+	for _, k := range w.keys {
+		if k == key {
+			return true
+		}
+	}
+	return false
+}
+
 // NewGates creates a controller and installs it as erpc.VerifPoint.
 func NewGates(rec *Rec) *Gates {
 	g := &Gates{
 		held:    map[string]bool{},
-		waiting: map[string][]chan struct{}{},
 		hits:    map[string]int{},
 		rec:     rec,
 		maxPark: 15 * time.Second,
@@ -90,9 +104,9 @@ func (g *Gates) point(pt string, sess erpc.Session, a, b int64) {
 	var key string
 	for _, k := range keys {
 		if g.held[k] {
-			key = k
+			key = keys[3]
 			ch = make(chan struct{})
-			g.waiting[k] = append(g.waiting[k], ch)
+			g.waiting = append(g.waiting, &waiter{keys: keys, ch: ch, a: a, b: b})
 			g.cond.Broadcast()
 			break
 		}
@@ -144,7 +158,7 @@ func (g *Gates) WaitParked(key string, d time.Duration) bool {
 	defer t.Stop()
 	g.mu.Lock()
 	defer g.mu.Unlock()
-	for len(g.waiting[key]) == 0 {
+	for g.find(key) < 0 {
 		if time.Now().After(deadline) {
 			return false
 		}
@@ -153,23 +167,48 @@ func (g *Gates) WaitParked(key string, d time.Duration) bool {
 	return true
 }
 
+func (g *Gates) find(key string) int {
+	for i, w := range g.waiting {
+		if w.match(key) {
+			return i
+		}
+	}
+	return -1
+}
+
 // Parked reports how many goroutines are parked at key.
 func (g *Gates) Parked(key string) int {
 	g.mu.Lock()
 	defer g.mu.Unlock()
-	return len(g.waiting[key])
+	n := 0
+	for _, w := range g.waiting {
+		if w.match(key) {
+			n++
+		}
+	}
+	return n
+}
+
+// ParkedArgs returns the (a, b) arguments of the first goroutine parked at key.
+func (g *Gates) ParkedArgs(key string) (a, b int64, ok bool) {
+	g.mu.Lock()
+	defer g.mu.Unlock()
+	if i := g.find(key); i >= 0 {
+		return g.waiting[i].a, g.waiting[i].b, true
+	}
+	return 0, 0, false
 }
 
 // Release lets one goroutine parked at key continue; returns false if none.
 func (g *Gates) Release(key string) bool {
 	g.mu.Lock()
 	defer g.mu.Unlock()
-	w := g.waiting[key]
-	if len(w) == 0 {
+	i := g.find(key)
+	if i < 0 {
 		return false
 	}
-	close(w[0])
-	g.waiting[key] = w[1:]
+	close(g.waiting[i].ch)
+	g.waiting = append(g.waiting[:i], g.waiting[i+1:]...)
 	return true
 }
 
@@ -177,12 +216,10 @@ func (g *Gates) Release(key string) bool {
 func (g *Gates) ReleaseAll() {
 	g.mu.Lock()
 	g.held = map[string]bool{}
-	for k, w := range g.waiting {
-		for _, ch := range w {
-			close(ch)
-		}
-		delete(g.waiting, k)
+	for _, w := range g.waiting {
+		close(w.ch)
 	}
+	g.waiting = nil
 	g.mu.Unlock()
 }
 
